@@ -293,3 +293,9 @@ func Thorough() bool {
 	load()
 	return replay.Thorough
 }
+
+// And / Or / Implies build boolean terms without branching (both operands are always evaluated): use them in
+// harness-side specifications to avoid forking the symbolic execution on every comparison.
+func And(a, b bool) bool     { return a && b }
+func Or(a, b bool) bool      { return a || b }
+func Implies(a, b bool) bool { return !a || b }
